@@ -9,12 +9,19 @@ import (
 
 type floatDecoder struct {
 	op         func(unsafe.Pointer, float64)
+	bitSize    int
 	structName string
 	fieldName  string
 }
 
 func newFloatDecoder(structName, fieldName string, op func(unsafe.Pointer, float64)) *floatDecoder {
-	return &floatDecoder{op: op, structName: structName, fieldName: fieldName}
+	return &floatDecoder{op: op, bitSize: 64, structName: structName, fieldName: fieldName}
+}
+
+// newFloat32Decoder parses with the precision of the destination: rounding to float64 first and
+// to float32 afterwards can differ from rounding once.
+func newFloat32Decoder(structName, fieldName string, op func(unsafe.Pointer, float64)) *floatDecoder {
+	return &floatDecoder{op: op, bitSize: 32, structName: structName, fieldName: fieldName}
 }
 
 var (
@@ -171,7 +178,7 @@ func (d *floatDecoder) DecodeStream(s *Stream, depth int64, p unsafe.Pointer) er
 		return nil
 	}
 	str := *(*string)(unsafe.Pointer(&bytes))
-	f64, err := strconv.ParseFloat(str, 64)
+	f64, err := strconv.ParseFloat(str, d.bitSize)
 	if err != nil {
 		return errors.ErrSyntax(err.Error(), s.totalOffset())
 	}
@@ -196,7 +203,7 @@ func (d *floatDecoder) Decode(ctx *RuntimeContext, cursor, depth int64, p unsafe
 		return 0, errors.ErrUnexpectedEndOfJSON("float", cursor)
 	}
 	s := *(*string)(unsafe.Pointer(&bytes))
-	f64, err := strconv.ParseFloat(s, 64)
+	f64, err := strconv.ParseFloat(s, d.bitSize)
 	if err != nil {
 		return 0, errors.ErrSyntax(err.Error(), cursor)
 	}
